@@ -264,6 +264,45 @@ def observe_from(tk_abs, tk_real=None):
     return rec
 
 
+def _mg(k, n=0, f1=0, f2=0, tl=(), tr=(), **kw):
+    g = {"k": k, "ph": 0, "bits": [], "dg": 0, "sub": "", "subdg": 0, "re": 0, "im": 0, "s": 0, "n": n, "f1": f1, "f2": f2,
+         "tl": list(tl), "tr": list(tr), "par": 0, "pf": {"c0": 0, "cx": 0, "cy": 0}}
+    g.update(kw)
+    return g
+
+
+def dead_wire_family():
+    """Three qubits of which the middle one dies (post-selected or discarded) before the outer two are swapped and
+    measured: the swap acts on wires that are adjacent in the diagram but not in tket's qubit register."""
+    out = []
+    for bits in ([1, 0, 0], [0, 1, 1]):
+        for kill in (_mg("Bra", bits=[bits[1]]), _mg("Discard", tl=["q"])):
+            for mid in ((), ("H",)):
+                layers = [{"g": _mg("Ket", bits=bits), "off": 0}]
+                layers += [{"g": _mg(k), "off": 1} for k in mid]
+                if kill["k"] == "Bra" and mid:
+                    continue        # post-selecting after H only adds a 1/sqrt2 weight; keep the family small
+                layers += [{"g": kill, "off": 1}, {"g": _mg("MSwap", tl=["q"], tr=["q"]), "off": 0},
+                           {"g": _mg("Measure", n=1, f1=1, f2=0), "off": 0}, {"g": _mg("Measure", n=1, f1=1, f2=0), "off": 1}]
+                out.append({"ty": [], "layers": layers})
+    return out
+
+
+def postselection_chain_family():
+    """A live bit, two qubits post-selected after it (two Bra boxes: two post-selected tket bits are renamed one
+    after the other), then a fresh bit to the right of the live bit."""
+    out = []
+    for a in (0, 1):
+        for b1, b2 in ((0, 1), (1, 0), (0, 0)):
+            layers = [{"g": _mg("Bits", bits=[a]), "off": 0}, {"g": _mg("Ket", bits=[0, 0]), "off": 1},
+                      {"g": _mg("H"), "off": 1}, {"g": _mg("X"), "off": 2},
+                      {"g": _mg("Bra", bits=[b1]), "off": 1}, {"g": _mg("Bra", bits=[b2]), "off": 1},
+                      {"g": _mg("Bits", bits=[0]), "off": 1}]
+            out.append({"ty": [], "layers": layers})
+            out.append({"ty": [], "layers": layers[:-1]})
+    return out
+
+
 def work_one(mc):
     rec, t = observe_to(mc)
     out = [rec]
@@ -362,6 +401,7 @@ def run(tier, seed, t0):
         os.remove(model["dump"])
         n_all = len(circuits)
         sample = circuits if len(circuits) <= c["replay"] else rnd.sample(circuits, c["replay"])
+        sample = sample + dead_wire_family() + postselection_chain_family()
         with mp.get_context("fork").Pool(16) as pool:
             nested = pool.map(work_one, sample, chunksize=4)
         recs = [r for group in nested for r in group]
